@@ -36,13 +36,15 @@ Fixpoint adjacent_dup (l : list (bytes * bytes)) : bool :=
   | _ => false
   end.
 
+Definition key_ok (q : bytes * bytes) : bool := key_pattern (fst q).
+Definition has_value (q : bytes * bytes) : bool := nonempty (snd q).
+Definition lowerkey (q : bytes * bytes) : bytes * bytes := (to_lower (fst q), snd q).
+
 Definition norm_quals (qs : list (bytes * bytes)) : option (list (bytes * bytes)) :=
   (* parseQualifiers validates the key as printed, Normalize the lower-cased key: the pattern is
      closed under lower-casing, so one test *)
-  if negb (forallb (fun q => key_pattern (fst q)) qs) then None else
-  let kept := filter (fun q => nonempty (snd q)) qs in
-  let lowered := map (fun q => (to_lower (fst q), snd q)) kept in
-  let sorted := isort qcmp lowered in
+  if negb (forallb key_ok qs) then None else
+  let sorted := isort qcmp (map lowerkey (filter has_value qs)) in
   if adjacent_dup sorted then None else Some sorted.
 
 Fixpoint qlookup (k : bytes) (qs : list (bytes * bytes)) : option bytes :=
@@ -70,12 +72,15 @@ Definition s_databricks := [100;97;116;97;98;114;105;99;107;115].
 
 Definition one_of (t : bytes) (l : list bytes) : bool := existsb (beq t) l.
 
-Definition adjust_ns (t ns : bytes) : bytes :=
-  if one_of t [s_alpm; s_apk; s_bitbucket; s_composer; s_deb; s_github; s_golang; s_npm; s_rpm; s_qpkg]
-  then to_lower ns else ns.
+Definition lowers_ns (t : bytes) : bool :=
+  one_of t [s_alpm; s_apk; s_bitbucket; s_composer; s_deb; s_github; s_golang; s_npm; s_rpm; s_qpkg].
+Definition lowers_name (t : bytes) : bool :=
+  one_of t [s_alpm; s_apk; s_bitbucket; s_bitnami; s_composer; s_deb; s_github; s_golang; s_npm].
+
+Definition adjust_ns (t ns : bytes) : bytes := if lowers_ns t then to_lower ns else ns.
 
 Definition adjust_name (t name : bytes) (qs : list (bytes * bytes)) : bytes :=
-  if one_of t [s_alpm; s_apk; s_bitbucket; s_bitnami; s_composer; s_deb; s_github; s_golang; s_npm]
+  if lowers_name t
   then to_lower name
   else if beq t s_pypi then to_lower (underscore_to_dash name)
   else if beq t s_mlflow then
@@ -122,6 +127,45 @@ Definition norm (p : purl) : option purl :=
       if custom_ok q then Some q else None
   end.
 
+(* ---- where the model's lower-casing (ASCII letters only) coincides with Go's strings.ToLower.
+   Go lower-cases with the Unicode tables and rewrites invalid UTF-8 to U+FFFD; the model's to_lower is
+   exact on ASCII strings. law_domain: every field that norm lower-cases for this type is ASCII. *)
+Definition ascii (s : bytes) : bool := forallb (fun c => N.ltb c 128) s.
+Definition touched_ok (ok : bytes -> bool) (p : purl) : bool :=
+  let t := to_lower (p_type p) in
+  ascii (p_type p) &&
+  (negb (lowers_ns t) || ok (p_ns p)) &&
+  (negb (lowers_name t || beq t s_pypi || beq t s_mlflow) || ok (p_name p)) &&
+  (negb (beq t s_huggingface) || ok (p_version p)).
+Definition law_domain (p : purl) : bool := touched_ok ascii p.
+
+(* the wider set on which the harness still checks the law: valid UTF-8 made of ASCII and runes from
+   blocks without upper-case letters (Latin-1 punctuation, combining marks, general punctuation, CJK,
+   kana, Hangul, emoji) *)
+Fixpoint caseless_fuel (fuel : nat) (s : bytes) : bool :=
+  match fuel with
+  | O => true
+  | S f =>
+      match s with
+      | [] => true
+      | c :: r =>
+          if N.ltb c 128 then caseless_fuel f r
+          else
+            let w := rune_width s in
+            let ok :=
+              match w, s with
+              | 2%nat, a :: b :: _ => N.eqb a 194 || N.eqb a 204 || (N.eqb a 205 && N.leb b 175)
+              | 3%nat, a :: b :: _ =>
+                  (N.eqb a 226 && (N.eqb b 128 || N.eqb b 129)) || in_range 227 233 a || in_range 235 237 a
+              | 4%nat, a :: b :: _ => N.eqb a 240 && N.eqb b 159
+              | _, _ => false
+              end in
+            ok && caseless_fuel f (skipn w s)
+      end
+  end.
+Definition caseless (s : bytes) : bool := caseless_fuel (length s) s.
+Definition law_checked_domain (p : purl) : bool := touched_ok caseless p.
+
 Definition qeq (a b : bytes * bytes) : bool := beq (fst a) (fst b) && beq (snd a) (snd b).
 Fixpoint list_eqb {A} (e : A -> A -> bool) (a b : list A) : bool :=
   match a, b with
@@ -161,3 +205,6 @@ Definition print_parse_model (p : purl) : option purl :=
 Definition s_snap : bytes := [115;110;97;112].
 Definition known_invalid_emitted : list bytes := [s_snap].
 Definition in_D_type (t : bytes) : bool := negb (one_of t known_invalid_emitted).
+(* known finding: a pkg:cran purl without version (r/renvlock on an entry lacking "Version") is rejected by
+   packageurl-go's type-specific rule "cran: version is required" *)
+Definition known_unparseable (p : purl) : bool := beq (to_lower (p_type p)) s_cran && is_nil (p_version p).
